@@ -521,6 +521,10 @@ func (r *result) adjustArgs(args []string, plugin string) error {
 	if args[0] == "" {
 		r.owners.clearArgs(id)
 		args = args[1:]
+		if len(args) == 0 {
+			// nothing to set: the marker alone only releases the earlier claim
+			return nil
+		}
 	}
 
 	if err := r.owners.claimArgs(id, plugin); err != nil {
